@@ -62,18 +62,33 @@ def build(spec):
 _T = {}
 
 
-def template():
+OPTIONS = ['', 'assume_children', 'reverse', 'sort=nid', 'nowrap',
+           'assume_children reverse', 'sort=nid reverse']
+
+
+def template(opts=''):
     from DocumentTemplate import HTML
-    if 't' not in _T:
-        _T['t'] = HTML('<dtml-tree root>⟦<dtml-var tpId>⟧</dtml-tree>')
-    return _T['t']
+    if opts not in _T:
+        _T[opts] = HTML('<dtml-tree root %s>⟦<dtml-var tpId>⟧</dtml-tree>'
+                        % opts)
+    return _T[opts]
+
+
+def ordered(children, opts):
+    """Sibling order under the tag's sort / reverse options."""
+    c = list(children)
+    if 'sort=' in opts:
+        c.sort(key=lambda n: n[0])
+    if 'reverse' in opts:
+        c.reverse()
+    return c
 
 
 LINK = re.compile(r'<a name="([^"]*)" href="([^"?]*)\?tree-([ec])=([^#"]*)#')
 CELL = re.compile(r'⟦(.*?)⟧', re.S)
 
 
-def render(root, cookie=None, click=None, flag=None):
+def render(root, cookie=None, click=None, flag=None, opts=''):
     """-> (rows, cookie_out) ; rows = [(id_text, link or None)],
     link = (kind, encoded)."""
     resp = Response()
@@ -84,7 +99,7 @@ def render(root, cookie=None, click=None, flag=None):
         ns['tree-' + click[0]] = click[1]
     if flag:
         ns[flag] = 1
-    out = template()(**ns)
+    out = template(opts)(**ns)
     rows = []
     for chunk in out.split('<tr>')[1:]:
         m = CELL.search(chunk)
@@ -96,12 +111,12 @@ def render(root, cookie=None, click=None, flag=None):
     return rows, resp.cookies.get('tree-s'), out
 
 
-def model_rows(spec, expanded):
+def model_rows(spec, expanded, opts=''):
     """DFS rows [(path, has_children, is_expanded)]."""
     rows = []
 
     def walk(children, prefix):
-        for c in children:
+        for c in ordered(children, opts):
             p = prefix + (c[0],)
             kids = bool(c[1])
             ex = kids and p in expanded
@@ -143,10 +158,12 @@ def cookie_paths(cookie, root_id):
     return paths
 
 
-def compare(spec, expanded, rows, cookie):
-    """-> None or (bucket, msg)"""
+def compare(spec, expanded, rows, cookie, opts='', leaves=frozenset()):
+    """-> None or (bucket, msg).  leaves: childless nodes whose (assumed)
+    expand link was clicked."""
     from TreeDisplay.TreeTag import decode_seq
-    exp = model_rows(spec, expanded)
+    assume = 'assume_children' in opts
+    exp = model_rows(spec, expanded, opts)
     got_ids = [r[0] for r in rows]
     exp_ids = [str(p[-1]) for p, _, _ in exp]
     if got_ids != exp_ids:
@@ -154,8 +171,16 @@ def compare(spec, expanded, rows, cookie):
             got_ids, exp_ids, sorted(expanded, key=repr))
     for (idt, link), (p, kids, ex) in zip(rows, exp):
         if not kids:
-            if link is not None:
+            if link is not None and not assume:
                 return 'link-on-leaf', 'leaf %r carries a link' % (p,)
+            if assume and p not in leaves:
+                # assumed to have children until shown otherwise
+                if link is None or link[0] != 'e':
+                    return ('assumed-link', 'childless node %r (children '
+                            'assumed) carries %r' % (p, link))
+                if list(decode_seq(link[1])) != [spec[0]] + list(p):
+                    return ('link-target', 'link of node %r decodes to %r'
+                            % (p, decode_seq(link[1])))
             continue
         if link is None:
             return 'link-missing', 'node %r with children has no link' % (p,)
@@ -177,6 +202,15 @@ def compare(spec, expanded, rows, cookie):
         cp = cookie_paths(cookie, spec[0])
     except Exception as e:
         return 'cookie-undecodable', '%r: %r' % (cookie, e)
+    if cp is not None and assume:
+        # clicked childless nodes may be remembered as expanded
+        real = all_expandable(spec)
+        extra = {q for q in cp if q not in real}
+        if not extra <= set(leaves):
+            return 'cookie-state', 'cookie lists %r as expanded; clicked ' \
+                'childless nodes are %r' % (sorted(extra, key=repr),
+                                            sorted(leaves, key=repr))
+        cp = cp - extra
     if cp is None or cp != set(expanded):
         return 'cookie-state', 'cookie describes %r, model %r' % (
             sorted(cp, key=repr) if cp is not None else None,
@@ -184,41 +218,53 @@ def compare(spec, expanded, rows, cookie):
     return None
 
 
-def apply_action(spec, expanded, action, rows_model):
-    """Model transition; action = ('click', row index) | ('flag', name)."""
+def apply_action(spec, expanded, action, rows_model, leaves=None):
+    """Model transition; action = ('click', row index) | ('flag', name).
+    leaves (a set, updated in place): clicked childless nodes."""
     expanded = set(expanded)
+    if leaves is None:
+        leaves = set()
     if action[0] == 'flag':
+        leaves.clear()
         if action[1] == 'expand_all':
             return all_expandable(spec)
         return set()
     p, kids, ex = rows_model[action[1]]
+    if not kids:
+        leaves.add(p)            # only with assume_children
+        return expanded
     if ex:
+        for q in [q for q in leaves if q[:len(p)] == p]:
+            leaves.discard(q)
         return {q for q in expanded if q[:len(p)] != p}
     expanded.add(p)
     return expanded
 
 
-def play(spec, history):
+def play(spec, history, opts=''):
     """Replay a history from scratch -> None or (bucket, msg)."""
     root = build(spec)
     expanded = set()
-    rows, cookie, _ = render(root)
-    bad = compare(spec, expanded, rows, cookie)
+    leaves = set()
+    rows, cookie, _ = render(root, opts=opts)
+    bad = compare(spec, expanded, rows, cookie, opts, leaves)
     if bad:
         return bad[0], 'initial rendering: ' + bad[1]
     for step, action in enumerate(history):
-        mrows = model_rows(spec, expanded)
+        mrows = model_rows(spec, expanded, opts)
         if action[0] == 'click':
             if action[1] >= len(rows) or rows[action[1]][1] is None:
                 return None          # not a link any more (shrunk history)
             link = rows[action[1]][1]
-            new_expanded = apply_action(spec, expanded, action, mrows)
-            rows, cookie, _ = render(root, cookie, click=link)
+            new_expanded = apply_action(spec, expanded, action, mrows,
+                                        leaves)
+            rows, cookie, _ = render(root, cookie, click=link, opts=opts)
         else:
-            new_expanded = apply_action(spec, expanded, action, mrows)
-            rows, cookie, _ = render(root, cookie, flag=action[1])
+            new_expanded = apply_action(spec, expanded, action, mrows,
+                                        leaves)
+            rows, cookie, _ = render(root, cookie, flag=action[1], opts=opts)
         expanded = new_expanded
-        bad = compare(spec, expanded, rows, cookie)
+        bad = compare(spec, expanded, rows, cookie, opts, leaves)
         if bad:
             return bad[0], 'tree %r after history %r: %s' % (
                 spec, history[:step + 1], bad[1])
@@ -253,54 +299,64 @@ def depth(shape):
     return 1 + max([depth(c) for c in shape], default=0)
 
 
-def label(shape):
+def label(shape, scramble=False):
     counter = itertools.count()
 
+    def name():
+        k = next(counter)
+        return 'n%d' % ((k * 5 + 3) % 7 if scramble else k)
+
     def walk(children):
-        return [['n%d' % next(counter), walk(c)] for c in children]
+        return [[name(), walk(c)] for c in children]
     return ['root', walk(shape)]
 
 
-def explore(spec, max_len, acc, budget):
+def explore(spec, max_len, acc, budget, opts=''):
     """Depth-first enumeration of every click history up to max_len."""
     root = build(spec)
     count = [0]
 
-    def rec(expanded, rows, cookie, history, nt):
+    def rec(expanded, rows, cookie, history, nt, leaves=frozenset()):
         if len(history) >= max_len or count[0] >= budget:
             return
-        mrows = model_rows(spec, expanded)
+        mrows = model_rows(spec, expanded, opts)
         actions = [('click', i) for i, r in enumerate(rows)
                    if r[1] is not None]
         actions += [('flag', 'expand_all'), ('flag', 'collapse_all')]
         for a in actions:
             count[0] += 1
-            new_exp = apply_action(spec, expanded, a, mrows)
+            nleaves = set(leaves)
+            new_exp = apply_action(spec, expanded, a, mrows, nleaves)
             if a[0] == 'click':
-                nrows, ncookie, _ = render(root, cookie, click=rows[a[1]][1])
+                nrows, ncookie, _ = render(root, cookie, click=rows[a[1]][1],
+                                           opts=opts)
                 p, kids, ex = mrows[a[1]]
                 nt2 = nt or (ex and any(q != p and q[:len(p)] == p
                                         for q in expanded))
             else:
-                nrows, ncookie, _ = render(root, cookie, flag=a[1])
+                nrows, ncookie, _ = render(root, cookie, flag=a[1], opts=opts)
                 nt2 = nt
             h = history + [list(a)]
             nt2 = nt2 or (ncookie is not None and len(ncookie) > 76)
-            acc.case([spec, h], nt2, klass='history-len-%d' % len(h),
-                     distinct_by_construction=True)
-            bad = compare(spec, new_exp, nrows, ncookie)
+            acc.case([spec, h, opts], nt2, klass=[
+                'history-len-%d' % len(h), 'options:' + (opts or 'none')],
+                distinct_by_construction=True)
+            bad = compare(spec, new_exp, nrows, ncookie, opts, nleaves)
             if bad:
-                acc.fail('history:' + bad[0], dict(tree=spec, history=h),
-                         'tree %r after history %r: %s' % (spec, h, bad[1]))
+                acc.fail('history:' + bad[0], dict(tree=spec, history=h,
+                                                   opts=opts),
+                         'tree %r (%s) after history %r: %s' % (
+                             spec, opts, h, bad[1]))
                 continue
-            rec(new_exp, nrows, ncookie, h, nt2)
+            rec(new_exp, nrows, ncookie, h, nt2, frozenset(nleaves))
 
-    rows, cookie, _ = render(root)
-    bad = compare(spec, set(), rows, cookie)
-    acc.case([spec, []], False, klass='history-len-0',
+    rows, cookie, _ = render(root, opts=opts)
+    bad = compare(spec, set(), rows, cookie, opts)
+    acc.case([spec, [], opts], False, klass='history-len-0',
              distinct_by_construction=True)
     if bad:
-        acc.fail('history:' + bad[0], dict(tree=spec, history=[]), bad[1])
+        acc.fail('history:' + bad[0], dict(tree=spec, history=[], opts=opts),
+                 bad[1])
         return
     rec(set(), rows, cookie, [], False)
 
@@ -334,7 +390,23 @@ def codec_states():
         [['root', [['x' * 57]]]], [['root', [['y' * 58], ['z' * 76]]]],
         [['root', [[i] for i in range(60)]]],
     ]
-    return list(seen.values()) + extra
+    # large states ("any state size"): JSON text from 1 KB to 300 KB, on both
+    # sides of every power of two, with incompressible and repetitive ids
+    big = []
+    for target in (1000, 2040, 2050, 4000, 4090, 4097, 4200, 6000, 8190,
+                   8200, 16380, 16390, 32760, 32780, 65530, 65540, 131080,
+                   300000):
+        for k, mk in ((12, lambda i: h(i, 12)), (40, lambda i: 'folder-%035d'
+                                                  % i),
+                      (6, lambda i: 'é%05d' % i)):
+            n = max(1, target // (k + 6))
+            big.append([['root', [[mk(i)] for i in range(n)]]])
+        n = max(1, target // 24)
+        chain = []
+        for i in range(min(n, 300)):
+            chain = [[h(i, 12), chain]] if chain else [[h(i, 12)]]
+        big.append([['root', chain]])
+    return list(seen.values()) + extra + big
 
 
 def check_codec(st):
@@ -346,8 +418,9 @@ def check_codec(st):
     except Exception as e:
         return 'codec-exception:%s' % type(e).__name__, '%r: %r' % (st, e)
     if back != st:
-        return ('codec-roundtrip', 'state %r -> %d chars -> %r' % (
-            st, len(enc), back))
+        return ('codec-roundtrip', 'state %s (%d bytes of JSON) -> %d chars '
+                '-> %s' % (repr(st)[:300], len(json.dumps(st)), len(enc),
+                           repr(back)[:300]))
     if not re.fullmatch(r'[A-Za-z0-9/_-]*', enc):
         return 'codec-alphabet', 'encoded state %r is not cookie/URL safe' \
             % enc
@@ -366,8 +439,8 @@ def check_codec(st):
     except Exception as e:
         return 'link-codec-exception:%s' % type(e).__name__, repr(e)
     if back != path:
-        return 'link-codec-roundtrip', 'path %r -> %d chars -> %r' % (
-            path, len(link), back)
+        return 'link-codec-roundtrip', 'path %s -> %d chars -> %s' % (
+            repr(path)[:300], len(link), repr(back)[:300])
     return None
 
 
@@ -406,22 +479,30 @@ def machine_class():
             super().__init__()
             self.spec = None
 
-        @initialize(t=st.lists(tree, min_size=1, max_size=5))
-        def start(self, t):
+        @initialize(t=st.lists(tree, min_size=1, max_size=5),
+                    opts=st.sampled_from(['', '', 'assume_children',
+                                          'reverse', 'nowrap',
+                                          'assume_children reverse']))
+        def start(self, t, opts):
             self.spec = ['root', uniq(t)]
+            self.opts = opts
             self.root = build(self.spec)
             self.expanded = set()
+            self.leaves = set()
             self.history = []
-            self.rows, self.cookie, _ = render(self.root)
+            self.rows, self.cookie, _ = render(self.root, opts=opts)
             self.check()
 
         def check(self):
-            bad = compare(self.spec, self.expanded, self.rows, self.cookie)
+            bad = compare(self.spec, self.expanded, self.rows, self.cookie,
+                          self.opts, self.leaves)
             if bad:
                 raise Violation('machine:' + bad[0],
-                                dict(tree=self.spec, history=self.history),
-                                'tree %r after history %r: %s' % (
-                                    self.spec, self.history, bad[1]))
+                                dict(tree=self.spec, history=self.history,
+                                     opts=self.opts),
+                                'tree %r (%s) after history %r: %s' % (
+                                    self.spec, self.opts, self.history,
+                                    bad[1]))
 
         @precondition(lambda self: self.spec is not None)
         @rule(i=st.integers(0, 200))
@@ -430,30 +511,32 @@ def machine_class():
             if not links:
                 return
             k = links[i % len(links)]
-            mrows = model_rows(self.spec, self.expanded)
+            mrows = model_rows(self.spec, self.expanded, self.opts)
             self.expanded = apply_action(self.spec, self.expanded,
-                                         ('click', k), mrows)
+                                         ('click', k), mrows, self.leaves)
             self.history.append(['click', k])
             self.rows, self.cookie, _ = render(self.root, self.cookie,
-                                               click=self.rows[k][1])
+                                               click=self.rows[k][1],
+                                               opts=self.opts)
             self.check()
 
         @precondition(lambda self: self.spec is not None)
         @rule(flag=st.sampled_from(['expand_all', 'collapse_all']))
         def all_(self, flag):
-            mrows = model_rows(self.spec, self.expanded)
+            mrows = model_rows(self.spec, self.expanded, self.opts)
             self.expanded = apply_action(self.spec, self.expanded,
-                                         ('flag', flag), mrows)
+                                         ('flag', flag), mrows, self.leaves)
             self.history.append(['flag', flag])
             self.rows, self.cookie, _ = render(self.root, self.cookie,
-                                               flag=flag)
+                                               flag=flag, opts=self.opts)
             self.check()
 
         @precondition(lambda self: self.spec is not None)
         @rule()
         def reload(self):
             self.history.append(['reload'])
-            self.rows, self.cookie, _ = render(self.root, self.cookie)
+            self.rows, self.cookie, _ = render(self.root, self.cookie,
+                                               opts=self.opts)
             self.check()
 
     return TreeMachine
@@ -506,10 +589,21 @@ def plan(tier, seed):
                 specs.append(label(sh))
     shards = [dict(kind='histories', specs=specs[i::14], maxlen=maxlen)
               for i in range(14)]
+    # option shards: trees with <= 5 nodes whose sibling ids are not in
+    # sorted order (so that sort= / reverse are visible)
+    small = []
+    for n in range(1, 7):
+        for sh in shapes(n):
+            if depth(sh) <= 5:
+                small.append(label(sh, scramble=True))
+    for o in OPTIONS[1:]:
+        for half in (0, 1):
+            shards.append(dict(kind='histories', specs=small[half::2],
+                               opts=o, maxlen=maxlen))
     shards.append(dict(kind='codec'))
-    for i in range(4 if tier == 'quick' else 16):
+    for i in range(8 if tier == 'quick' else 16):
         shards.append(dict(kind='machine', seed=seed * 1000 + i,
-                           n=40 if tier == 'quick' else 400,
+                           n=120 if tier == 'quick' else 600,
                            steps=20 if tier == 'quick' else 40))
     return shards
 
@@ -518,7 +612,8 @@ def run_shard(shard):
     acc = Acc(ID, sample_every=4999)
     if shard['kind'] == 'histories':
         for spec in shard['specs']:
-            explore(spec, shard['maxlen'], acc, budget=400000)
+            explore(spec, shard['maxlen'], acc, budget=400000,
+                    opts=shard.get('opts', ''))
     elif shard['kind'] == 'codec':
         for st in codec_states():
             bad = check_codec(st)
@@ -537,5 +632,5 @@ def replay(case):
     if 'codec' in case:
         return check_codec(case['codec'])
     hist = [tuple(a) for a in case['history'] if a[0] != 'reload']
-    bad = play(case['tree'], hist)
+    bad = play(case['tree'], hist, case.get('opts', ''))
     return bad
